@@ -263,11 +263,24 @@ class CContext:
         value = 0
         for constant in ctyp.constants:
             if constant.value:
-                value = self.eval_expr(constant.value)
+                # An enumeration constant has type int:
+                value = self.wrap_integer(ctyp, self.eval_expr(constant.value))
             self._enum_values[constant] = value
 
             # Increase for next enum value:
             value += 1
+
+    def wrap_integer(self, typ, value):
+        """Convert an integer value to the given integer (or enum) type.
+
+        The value is reduced modulo 2^N to the range of the type.
+        """
+        bits = 8 * self.sizeof(typ)
+        value &= (1 << bits) - 1
+        is_signed = typ.is_signed or isinstance(typ, types.EnumType)
+        if is_signed and value >> (bits - 1):
+            value -= 1 << bits
+        return value
 
     def pack(self, typ, value):
         """Pack a type into proper memory format"""
@@ -281,6 +294,12 @@ class CContext:
         fmt = self.ctypes_names[tid]
         # Check format with arch options:
         assert self.sizeof(typ) == struct.calcsize(fmt)
+        if isinstance(value, int) and fmt[-1] not in "fd":
+            # A value which does not fit the type is converted to it:
+            bits = 8 * struct.calcsize(fmt)
+            value &= (1 << bits) - 1
+            if fmt[-1].islower() and value >> (bits - 1):
+                value -= 1 << bits
         return struct.pack(fmt, value)
 
     def _make_ival(self, typ, ival):
